@@ -53,6 +53,12 @@ class FanoutWorld(CacheWorld):
     def replay_args(self):
         return [self.settings, self.shards]
 
+    def route(self, key):
+        import diskcache
+        d = diskcache.Disk(self.dir)
+        d.pickle_protocol = self.settings.get('disk_pickle_protocol', 5)
+        return d.hash(key) % self.shards
+
     def snaps(self):
         return [Snapshot('%s/%03d' % (self.dir, i))
                 for i in range(self.shards)]
@@ -89,7 +95,9 @@ class FanoutWorld(CacheWorld):
             for row in snap.contents():
                 rows.append(row)
                 have.add(norm_key(row[0]))
-                idx = self.cache._hash(row[0]) % self.shards
+                # routing computed by an independent Disk object (not by the
+                # FanoutCache under test, which may remember earlier keys)
+                idx = self.route(row[0])
                 if idx != i:
                     problems.append(('misrouted', 'key %r stored in shard %d '
                                      'but routed to %d' % (row[0], i, idx)))
@@ -231,6 +239,25 @@ def routing_unit(unit):
                         'recorded routing says %d' % (key, i, g % shards))
     finally:
         fc.close()
+    # routing through a long-lived FanoutCache object must not depend on
+    # which keys the object has seen before (forward and reverse order)
+    for order in (1, -1):
+        fpath = os.path.join(root, 'hist%d' % order)
+        fobj = diskcache.FanoutCache(fpath, shards=8)
+        try:
+            for k in c02.alphabet(5)[::order]:
+                part['transitions'] += 1
+                name = '5|%s|%r' % (type(k).__name__, k)
+                want = golden.get(name)
+                if want is None:
+                    continue
+                got = fobj._hash(k)
+                if got != want:
+                    bad('routing-depends-on-history', 'after hashing other '
+                        'keys, FanoutCache routes %r by %r, recorded %r'
+                        % (k, got, want))
+        finally:
+            fobj.close()
     # keys the cache treats as equal share a shard, for every shard count
     d = diskcache.Disk(root)
     d.pickle_protocol = 5
